@@ -69,3 +69,27 @@ theorem tie_C04_after_wait (s : St) (connErr : Bool) :
   unfold finish Generated.Trans.Client.afterWaitFailed
   simp only [cfgOn, tie_C04_isClosed, tie_C04_close, writerReset]
   cases s.err <;> cases s.closed <;> cases s.gotExc <;> simp
+
+/-! ### the read deadline of one attempt (`Client.packet`) = `Model.Timing.attemptDeadline` -/
+
+open Model.Timing in
+/-- with a read timeout, every attempt is armed with min(now + readTimeout, context deadline): what the discrete-time
+theorems `C10_noticed_within_read_timeout` / `C13_hello_before_handshake_timeout` assume about the loop -/
+theorem tie_C10_packet_deadline (now readTO : Nat) (ctxDeadline : Option Nat) (hto : 0 < readTO) :
+    Generated.Trans.Client.packetDeadline now readTO ctxDeadline = some (attemptDeadline now readTO ctxDeadline) := by
+  unfold Generated.Trans.Client.packetDeadline attemptDeadline
+  cases ctxDeadline with
+  | none => simp [hto]
+  | some d =>
+    simp only [hto, decide_true, if_true, Option.getD_some, Option.isSome_some, before, Option.isNone_some, Bool.or_false, Bool.true_and]
+    by_cases h : d < now + readTO
+    · simp [h, Nat.min_def]
+      try omega
+    · simp [h, Nat.min_def]
+      try omega
+
+/-- without a read timeout the context deadline (if any) is the only one -/
+theorem tie_C10_packet_deadline_no_timeout (now : Nat) (ctxDeadline : Option Nat) :
+    Generated.Trans.Client.packetDeadline now 0 ctxDeadline = ctxDeadline := by
+  unfold Generated.Trans.Client.packetDeadline
+  cases ctxDeadline <;> simp [Model.Timing.before]
